@@ -620,6 +620,42 @@ def gen_pp(rng, cur, P):
     return {'op': 'transfer', 'src': [a, ssel], 'dst': [b, dsel], 'q': spell(rng, lim * rng.uniform(0.05, 0.5), 'L')}
 
 
+def append_remove_chain(rng, prog):
+    """Consecutive removals, each in its own stage, on disjoint parts of one plate and then on the whole plate (or on one
+    container: an absent selection first): the second removal meets wells that the first one left exactly as they were."""
+    steps = prog['steps']
+    opened = [s_['name'] for s_ in steps if s_['op'] == 'start_stage']
+    closed = {s_['name'] for s_ in steps if s_['op'] == 'end_stage'}
+    for nme in opened:
+        if nme not in closed:
+            steps.append({'op': 'end_stage', 'name': nme})
+    plates = [d_ for d_ in prog['decls'] if d_['type'] == 'plate' and d_['rows'] * d_['cols'] >= 2]
+    conts = [d_ for d_ in prog['decls'] if d_['type'] == 'container']
+    what = rng.choice([R.LIQUID, R.LIQUID, R.SOLID] + list(prog['subs']))
+    chain = []
+    if plates and (rng.random() < 0.75 or not conts):
+        d_ = rng.choice(plates)
+        if d_['rows'] >= 2 and rng.random() < 0.6:
+            parts = [1, slice(2, None)]
+        elif d_['cols'] >= 2:
+            parts = [(slice(None), 1), (slice(None), slice(2, None))]
+        else:
+            parts = [1, slice(2, None)]
+        if rng.random() < 0.5:
+            parts.reverse()
+        chain = [([d_['name'], parts[0]], what), ([d_['name'], parts[1]], what), ([d_['name'], None], rng.choice([R.SOLID, R.ENZYME, R.LIQUID]))]
+        M.bucket('C17/recipe/remove_chain/plate')
+    elif conts:
+        d_ = rng.choice(conts)
+        chain = [([d_['name'], None], R.ENZYME), ([d_['name'], None], R.LIQUID), ([d_['name'], None], R.SOLID)]
+        rng.shuffle(chain)
+        M.bucket('C17/recipe/remove_chain/container')
+    for k, (ref, w_) in enumerate(chain):
+        steps.append({'op': 'start_stage', 'name': f'zc{k}'})
+        steps.append({'op': 'remove', 'dst': ref, 'what': w_})
+        steps.append({'op': 'end_stage', 'name': f'zc{k}'})
+
+
 def describe_program(prog):
     def d(v):
         if hasattr(v, 'name') and hasattr(v, '_type'):
@@ -675,6 +711,8 @@ def run_recipe_case(rng, case, idx, focus=None):
     # API that step is added after a first, refused, bake - which must leave the recipe (steps, results, open stage)
     # as it was, so that everything downstream equals the program with that step in place
     forgot = (idx % 4 == 0) and prog['infeasible_at'] is None
+    if focus == 'remove' and idx % 3 == 2 and prog['infeasible_at'] is None:
+        append_remove_chain(rng, prog)
     fname = 'zz_forgot'
     if forgot:
         # half of the time the forgotten container is named after a substance that the steps mention as an operand
